@@ -5,17 +5,41 @@
 
 #include <etl/_cstddef/size_t.hpp>
 #include <etl/_tuple/forward_as_tuple.hpp>
+#include <etl/_tuple/tuple.hpp>
+#include <etl/_tuple/tuple_element.hpp>
 #include <etl/_tuple/tuple_like.hpp>
 #include <etl/_tuple/tuple_size.hpp>
+#include <etl/_type_traits/remove_cvref.hpp>
 #include <etl/_type_traits/remove_reference.hpp>
 #include <etl/_utility/forward.hpp>
 #include <etl/_utility/index_sequence.hpp>
+#include <etl/_utility/move.hpp>
 
 namespace etl {
 
 namespace detail {
 
-inline constexpr struct tuple_cat {
+template <typename T, typename Indices = etl::make_index_sequence<etl::tuple_size_v<T>>>
+struct tuple_cat_elements;
+
+template <typename T, etl::size_t... Is>
+struct tuple_cat_elements<T, etl::index_sequence<Is...>> {
+    using type = etl::tuple<etl::tuple_element_t<Is, T>...>;
+};
+
+template <typename... Tuples>
+struct tuple_cat_result;
+
+template <typename... Ts>
+struct tuple_cat_result<etl::tuple<Ts...>> {
+    using type = etl::tuple<Ts...>;
+};
+
+template <typename... Ts, typename... Us, typename... Tail>
+struct tuple_cat_result<etl::tuple<Ts...>, etl::tuple<Us...>, Tail...> : tuple_cat_result<etl::tuple<Ts..., Us...>, Tail...> { };
+
+/// Collects references to all elements of all arguments in one tuple of references.
+inline constexpr struct tuple_cat_refs {
     template <etl::tuple_like T1, etl::tuple_like T2, etl::size_t... I1, etl::size_t... I2>
     [[nodiscard]] constexpr auto
     concat(T1&& t1, T2&& t2, etl::index_sequence<I1...> /*i1*/, etl::index_sequence<I2...> /*i2*/) const
@@ -24,13 +48,13 @@ inline constexpr struct tuple_cat {
         return etl::forward_as_tuple(get<I1>(etl::forward<T1>(t1))..., get<I2>(etl::forward<T2>(t2))...);
     }
 
-    template <etl::tuple_like Result>
-    [[nodiscard]] constexpr auto operator()(Result&& result) const
+    template <etl::tuple_like Head>
+    [[nodiscard]] constexpr auto operator()(Head&& head) const
     {
         return [&]<etl::size_t... Is>(etl::index_sequence<Is...> /*is*/) {
             using etl::get;
-            return etl::tuple{get<Is>(etl::forward<Result>(result))...};
-        }(etl::make_index_sequence<etl::tuple_size_v<etl::remove_reference_t<Result>>>{});
+            return etl::forward_as_tuple(get<Is>(etl::forward<Head>(head))...);
+        }(etl::make_index_sequence<etl::tuple_size_v<etl::remove_reference_t<Head>>>{});
     }
 
     template <etl::tuple_like Result, etl::tuple_like Head, etl::tuple_like... Tail>
@@ -43,14 +67,25 @@ inline constexpr struct tuple_cat {
             etl::forward<Tail>(tail)...
         );
     }
-} tuple_cat;
+} tuple_cat_refs;
 
 } // namespace detail
 
+/// Constructs a tuple that is a concatenation of all tuples in args. The element types of the result
+/// are the element types of the arguments (tuple_element_t), in order; each element is constructed
+/// from get<I>(etl::forward<Tuple>(t)).
 template <etl::tuple_like... Tuples>
+    requires(sizeof...(Tuples) > 0)
 [[nodiscard]] constexpr auto tuple_cat(Tuples&&... ts)
 {
-    return etl::detail::tuple_cat(etl::forward<Tuples>(ts)...);
+    using result_t = typename etl::detail::tuple_cat_result<
+        typename etl::detail::tuple_cat_elements<etl::remove_cvref_t<Tuples>>::type...>::type;
+    return [](auto&& refs) {
+        return [&]<etl::size_t... Is>(etl::index_sequence<Is...> /*is*/) {
+            using etl::get;
+            return result_t(get<Is>(etl::move(refs))...);
+        }(etl::make_index_sequence<etl::tuple_size_v<result_t>>{});
+    }(etl::detail::tuple_cat_refs(etl::forward<Tuples>(ts)...));
 }
 
 } // namespace etl
